@@ -10,7 +10,7 @@
        clause-ordered, for pipelines of any length.
    The resolver and the rest of the back end are tied by the end-to-end oracle, not by proof. *)
 From Coq Require Import List ZArith QArith NArith Bool Permutation.
-From PV Require Import Model.Rel Proofs.RelFacts Model.SplitBase Gen.GenSplit Proofs.SplitProofs Proofs.Theta2 Proofs.Theta2c Proofs.SegmentSound.
+From PV Require Import Model.Rel Proofs.RelFacts Model.SplitBase Gen.GenSplit Proofs.SplitProofs Proofs.Theta2 Proofs.Theta2c Proofs.SegmentSound Proofs.SegmentDistinct.
 Import ListNotations.
 
 (* ---- (c) table obligation on what anchor.rs says NOW ---- *)
@@ -93,6 +93,43 @@ Theorem c01_clause_ordered_segment_sound : forall (row : Type) (p : list (Segmen
 Proof. exact SegmentSound.clause_ordered_segment_sound. Qed.
 Print Assumptions c01_clause_ordered_segment_sound.
 
+(* the same with DISTINCT (SqlTransform::Distinct) in the segment: SELECT DISTINCT .. WHERE .. GROUP BY .. HAVING ..
+   ORDER BY .. LIMIT; rows carry any decidable equality; DISTINCT keeps the first of equal rows *)
+Theorem c01_clause_ordered_segment_distinct_sound : forall (row : Type) (eqb : row -> row -> bool),
+  (forall x y, eqb x y = true <-> x = y) ->
+  forall p : list (SegmentDistinct.trd row),
+  Forall (SegmentDistinct.good_d row) p -> clause_ordered (map (SegmentDistinct.kind_d row) p) = true ->
+  forall base, SegmentDistinct.sem_select_d row eqb (SegmentSound.assemble row (SegmentDistinct.strip row p)) (SegmentDistinct.has_d row p) base
+               = SegmentDistinct.run_d row eqb p base.
+Proof. exact SegmentDistinct.segment_d_sound. Qed.
+Print Assumptions c01_clause_ordered_segment_distinct_sound.
+
+(* DISTINCT commutes with ORDER BY (why the ORDER BY of a SELECT DISTINCT may come from a sort in front of it) *)
+Theorem c01_distinct_commutes_with_sort : forall (row : Type) (eqb : row -> row -> bool),
+  (forall x y, eqb x y = true <-> x = y) -> forall c, Theta2.good row c -> forall l,
+  SegmentDistinct.dd row eqb (Theta2.isort row c l) = Theta2.isort row c (SegmentDistinct.dd row eqb l).
+Proof. exact SegmentDistinct.dd_isort. Qed.
+Print Assumptions c01_distinct_commutes_with_sort.
+
+(* joins in front (FROM base JOIN ..): the SELECT evaluates them before everything else; and clause order lets
+   nothing but (hoisted) sorts in front of a join *)
+Theorem c01_segment_join_distinct_sound : forall (row : Type) (eqb : row -> row -> bool),
+  (forall x y, eqb x y = true <-> x = y) ->
+  forall (js : list (Theta2.rel row -> Theta2.rel row)) (q : list (SegmentDistinct.trd row)),
+  Forall (SegmentDistinct.good_d row) q ->
+  clause_ordered (map (SegmentDistinct.kind_j row) (map (SegmentDistinct.J row) js ++ map (SegmentDistinct.NJ row) q)) = true ->
+  forall base,
+    SegmentDistinct.sem_select_d row eqb (SegmentSound.assemble row (SegmentDistinct.strip row q)) (SegmentDistinct.has_d row q)
+      (SegmentDistinct.run_joins row js base)
+    = SegmentDistinct.run_j row eqb (map (SegmentDistinct.J row) js ++ map (SegmentDistinct.NJ row) q) base.
+Proof. exact SegmentDistinct.segment_join_d_sound. Qed.
+Print Assumptions c01_segment_join_distinct_sound.
+Theorem c01_only_sorts_before_join : forall (row : Type) a t b j,
+  clause_ordered (map (SegmentDistinct.kind_j row) (a ++ SegmentDistinct.NJ row t :: b)) = true -> In (SegmentDistinct.J row j) b ->
+  exists c, t = SegmentDistinct.Old row (SegmentSound.TS row c).
+Proof. exact SegmentDistinct.only_sorts_before_join. Qed.
+Print Assumptions c01_only_sorts_before_join.
+
 (* ---- (a) the edge cases the property names, as facts of the reference semantics ---- *)
 Theorem c01_agg_one_row : forall cols l, length (Rel.apply (TAggregate cols) l) = 1%nat.
 Proof. exact agg_one_row. Qed.
@@ -114,3 +151,13 @@ Example c01_ex_segment : clause_ordered [KFrom; KJoin; KFilter; KCompute; KCompu
 Proof. vm_compute. reflexivity. Qed.
 Example c01_ex_bad_segment : clause_ordered [KFrom; KTake; KFilter] = false.
 Proof. vm_compute. reflexivity. Qed.
+(* a concrete segment with DISTINCT meeting the hypotheses of c01_clause_ordered_segment_distinct_sound, and its value *)
+Example c01_ex_distinct_segment :
+  let p := [SegmentDistinct.Old nat (SegmentSound.TF nat (fun x => Nat.ltb 1%nat x));
+            SegmentDistinct.Old nat (SegmentSound.TS nat Nat.leb);
+            SegmentDistinct.TD nat;
+            SegmentDistinct.Old nat (SegmentSound.TS nat (fun x y => Nat.leb y x));
+            SegmentDistinct.Old nat (SegmentSound.TT nat (Theta2.Rg (Some 2%nat) (Some 3%nat)))] in
+  clause_ordered (map (SegmentDistinct.kind_d nat) p) = true /\
+  SegmentDistinct.run_d nat Nat.eqb p [3; 1; 5; 3; 2; 5; 4]%nat = [4; 3]%nat.
+Proof. vm_compute. split; reflexivity. Qed.
